@@ -195,6 +195,16 @@ def floatWriteOp : Op := fun
   | _ => "bad-op"
 
 def jsonOps : List (String × Op) := intOps ++ [
+  -- the byte level of the scanners' single-character read, on arbitrary bytes: the characters, or `err`
+  ("jreadchars", fun
+    | [f] => withBytes f (fun bs => match readChars bs with
+        | some cs => "ok " ++ hexText cs
+        | none => "err")
+    | _ => "bad-op"),
+  -- the table behind `char::is_numeric` above U+007F, as `lo-hi` ranges (decimal)
+  ("jnumeric", fun
+    | [] => "ok " ++ String.intercalate "," (Rws.Gen.UnicodeNumeric.ranges.map (fun r => toString r.1 ++ "-" ++ toString r.2))
+    | _ => "bad-op"),
   ("jsplit", fun
     | [f] => withText f (fun t => showListOutcome hexText (splitIntoVectorOfStrings t))
     | _ => "bad-op"),
